@@ -99,3 +99,234 @@ def sweep(c, prop, which, sizes, tag):
                 continue
             out.append((key, evs))
     return out
+
+
+# ---------------------------------------------------------------------------------------------------------------------------------
+# public-key tools as a session (spec/Cli.tla): artefacts produced by one tool, opened by another under right and wrong circumstances
+# ---------------------------------------------------------------------------------------------------------------------------------
+class Session:
+    def __init__(self, exe, wd):
+        self.exe, self.wd, self.evs, self.san, self.nid = exe, wd, [], None, 0
+        os.makedirs(wd, exist_ok=True)
+
+    def p(self, name): return os.path.join(self.wd, name)
+
+    def tool(self, args, timeout=120):
+        rc, out, err, san = run(self.exe, args, timeout=timeout)
+        self.san = self.san or san
+        return rc, out, err
+
+    def write(self, name, data):
+        open(self.p(name), "wb").write(data); return self.p(name)
+
+    def read(self, name):
+        return open(self.p(name), "rb").read() if os.path.exists(self.p(name)) else b""
+
+    def produce(self, tool, args, outname, admissible=True):
+        if os.path.exists(self.p(outname)): os.remove(self.p(outname))
+        rc, out, err = self.tool([tool] + args)
+        self.nid += 1
+        self.evs.append({"e": "CliProduce", "id": self.nid, "tool": tool, "admissible": 1 if admissible else 0, "rc": 0 if rc == 0 else (rc if rc > 0 else 1), "outlen": len(self.read(outname)), "stderr": err[-200:]})
+        return self.nid if rc == 0 else None
+
+    def open(self, src, tool, args, what, untouched=True, rightkey=True, rightid=True, rightmsg=True, outname=None, original=None):
+        if outname and os.path.exists(self.p(outname)): os.remove(self.p(outname))
+        rc, out, err = self.tool([tool] + args)
+        same = 1 if (outname is None or self.read(outname) == original) else 0
+        self.evs.append({"e": "CliOpen", "src": src, "tool": tool, "what": what, "untouched": int(untouched), "rightkey": int(rightkey), "rightid": int(rightid), "rightmsg": int(rightmsg),
+                         "rc": 0 if rc == 0 else (rc if rc > 0 else 1), "same": same, "stderr": err[-200:]})
+
+
+def flip(data, pos, mask=0x01):
+    x = bytearray(data); x[pos % len(x)] ^= mask; return bytes(x)
+
+
+def pem_der(pem):
+    import base64, re
+    m = re.search(rb"-----BEGIN ([^-]+)-----\s*(.*?)\s*-----END \1-----", pem, re.S)
+    return base64.b64decode(re.sub(rb"\s", b"", m.group(2)))
+
+
+def pem_flip(pem, frac, label=None):
+    """the DER inside a PEM file with one bit changed at the given position (a fraction of its length, or an absolute offset; negative = from the end), re-encoded"""
+    import base64, re
+    m = re.search(rb"-----BEGIN ([^-]+)-----\s*(.*?)\s*-----END \1-----", pem, re.S)
+    der = base64.b64decode(re.sub(rb"\s", b"", m.group(2)))
+    der = flip(der, int(len(der) * frac) if isinstance(frac, float) else (frac if frac >= 0 else len(der) + frac), 0x04)
+    b64 = base64.b64encode(der)
+    body = b"\n".join(b64[i:i + 64] for i in range(0, len(b64), 64))
+    return b"-----BEGIN " + m.group(1) + b"-----\n" + body + b"\n-----END " + m.group(1) + b"-----\n"
+
+
+def sm2_session(exe, wd, sizes, salt, part="sign"):
+    s = Session(exe, wd); P = "P@ss-%d" % salt
+    s.tool(["sm2keygen", "-pass", P, "-out", s.p("k.pem"), "-pubout", s.p("p.pem")])
+    s.tool(["sm2keygen", "-pass", P, "-out", s.p("k2.pem"), "-pubout", s.p("p2.pem")])
+    for n in (sizes if part == "sign" else []):
+        m = msg(n, salt); s.write("m", m)
+        for idargs, idname in (([], "default"), (["-id", "alice@example"], "custom")):
+            sid = s.produce("sm2sign", ["-key", s.p("k.pem"), "-pass", P] + idargs + ["-in", s.p("m"), "-out", s.p("sig")], "sig")
+            if not sid: continue
+            sig = s.read("sig")
+            V = lambda what, mm=None, sg=None, pub="p.pem", ida=idargs, **kw: (s.write("m2", m if mm is None else mm), s.write("sig2", sig if sg is None else sg),
+                                                                               s.open(sid, "sm2verify", ["-pubkey", s.p(pub)] + ida + ["-in", s.p("m2"), "-sig", s.p("sig2")], "%s:%s:len%d" % (what, idname, n), **kw))
+            V("genuine")
+            V("otherkey", pub="p2.pem", rightkey=False)
+            V("otherid", ida=["-id", "bob@example"], rightid=False)
+            if idargs: V("defaultid", ida=[], rightid=False)
+            V("msg+1", mm=m + b"\x00", rightmsg=False)
+            if n:
+                V("msg-1", mm=m[:-1], rightmsg=False)
+                V("msgflip-last", mm=flip(m, n - 1), rightmsg=False)
+                V("msgflip-first", mm=flip(m, 0, 0x80), rightmsg=False)
+                if n > 4096: V("msgflip-4096", mm=flip(m, 4096), rightmsg=False)
+            for k in (4, len(sig) // 2, len(sig) - 1):
+                V("sigflip%d" % k, sg=flip(sig, k), untouched=False)
+            V("sigtrunc", sg=sig[:-1], untouched=False)
+            if len(sig) < 72:             # (the tool reads at most the largest signature size: what follows 72 octets is not part of what it was given)
+                V("sigext", sg=sig + b"\x00", untouched=False)
+    if part == "sign":
+        return s
+    for n in (1, 16, 100, 254, 255):
+        m = msg(n, salt + 7); s.write("m", m)
+        cid = s.produce("sm2encrypt", ["-pubkey", s.p("p.pem"), "-in", s.p("m"), "-out", s.p("ct")], "ct")
+        if not cid: continue
+        ct = s.read("ct")
+        D = lambda what, c=None, key="k.pem", **kw: (s.write("ct2", ct if c is None else c), s.open(cid, "sm2decrypt", ["-key", s.p(key), "-pass", P, "-in", s.p("ct2"), "-out", s.p("pt")], "%s:len%d" % (what, n), outname="pt", original=m, **kw))
+        D("genuine"); D("otherkey", key="k2.pem", rightkey=False)
+        for k in (5, len(ct) // 3, len(ct) - n - 3, len(ct) - 1):
+            D("ctflip%d" % k, c=flip(ct, k), untouched=False)
+        D("cttrunc", c=ct[:-1], untouched=False)
+    for n in (256, 300, 5000):
+        s.write("m", msg(n, salt)); s.produce("sm2encrypt", ["-pubkey", s.p("p.pem"), "-in", s.p("m"), "-out", s.p("ct")], "ct", admissible=False)
+    return s
+
+
+def sm9_session(exe, wd, sizes, salt):
+    s = Session(exe, wd); P = "pw%d" % salt
+    s.tool(["sm9setup", "-alg", "sm9sign", "-pass", P, "-out", s.p("sm.pem"), "-pubout", s.p("smp.pem")])
+    s.tool(["sm9setup", "-alg", "sm9sign", "-pass", P, "-out", s.p("sm2.pem"), "-pubout", s.p("smp2.pem")])
+    s.tool(["sm9keygen", "-alg", "sm9sign", "-in", s.p("sm.pem"), "-inpass", P, "-id", "Alice", "-out", s.p("sk.pem"), "-outpass", P])
+    for n in sizes:
+        m = msg(n, salt); s.write("m", m)
+        sid = s.produce("sm9sign", ["-key", s.p("sk.pem"), "-pass", P, "-in", s.p("m"), "-out", s.p("sig")], "sig")
+        if not sid: continue
+        sig = s.read("sig")
+        V = lambda what, mm=None, sg=None, mpk="smp.pem", ident="Alice", **kw: (s.write("m2", m if mm is None else mm), s.write("sig2", sig if sg is None else sg),
+                                                                               s.open(sid, "sm9verify", ["-in", s.p("m2"), "-pubmaster", s.p(mpk), "-id", ident, "-sig", s.p("sig2")], "%s:len%d" % (what, n), **kw))
+        V("genuine"); V("otherid", ident="Alicf", rightid=False); V("otherid-prefix", ident="Alic", rightid=False); V("othermaster", mpk="smp2.pem", rightkey=False)
+        V("msg+1", mm=m + b"\x00", rightmsg=False)
+        if n:
+            V("msgflip-last", mm=flip(m, n - 1), rightmsg=False)
+            if n > 4096: V("msgflip-4096", mm=flip(m, 4096), rightmsg=False)
+        for k in (4, len(sig) // 2, len(sig) - 1):
+            V("sigflip%d" % k, sg=flip(sig, k), untouched=False)
+    s.tool(["sm9setup", "-alg", "sm9encrypt", "-pass", P, "-out", s.p("em.pem"), "-pubout", s.p("emp.pem")])
+    s.tool(["sm9keygen", "-alg", "sm9encrypt", "-in", s.p("em.pem"), "-inpass", P, "-id", "Bob", "-out", s.p("ek.pem"), "-outpass", P])
+    s.tool(["sm9keygen", "-alg", "sm9encrypt", "-in", s.p("em.pem"), "-inpass", P, "-id", "Carol", "-out", s.p("ek2.pem"), "-outpass", P])
+    for n in (1, 32, 100, 255):
+        m = msg(n, salt + 3); s.write("m", m)
+        cid = s.produce("sm9encrypt", ["-pubmaster", s.p("emp.pem"), "-id", "Bob", "-in", s.p("m"), "-out", s.p("ct")], "ct")
+        if not cid: continue
+        ct = s.read("ct")
+        D = lambda what, c=None, key="ek.pem", ident="Bob", **kw: (s.write("ct2", ct if c is None else c), s.open(cid, "sm9decrypt", ["-key", s.p(key), "-pass", P, "-id", ident, "-in", s.p("ct2"), "-out", s.p("pt")], "%s:len%d" % (what, n), outname="pt", original=m, **kw))
+        D("genuine"); D("otherid", ident="Bobby", rightid=False); D("otherkey", key="ek2.pem", ident="Carol", rightkey=False)
+        for k in (6, len(ct) // 2, len(ct) - 1):
+            D("ctflip%d" % k, c=flip(ct, k), untouched=False)
+    for n in (256, 257, 4096):
+        s.write("m", msg(n, salt)); s.produce("sm9encrypt", ["-pubmaster", s.p("emp.pem"), "-id", "Bob", "-in", s.p("m"), "-out", s.p("ct")], "ct", admissible=False)
+    return s
+
+
+def pki(s, P):
+    """root -> sub CA -> signing and encryption certificates, with the cert tools"""
+    dn = ["-C", "CN", "-ST", "Beijing", "-L", "Haidian", "-O", "PKU", "-OU", "CS"]
+    for k in ("rootkey", "cakey", "signkey", "enckey", "evilkey"):
+        s.tool(["sm2keygen", "-pass", P, "-out", s.p(k + ".pem")])
+    s.tool(["certgen"] + dn + ["-CN", "ROOTCA", "-days", "3650", "-key", s.p("rootkey.pem"), "-pass", P, "-out", s.p("root.pem"), "-key_usage", "keyCertSign", "-key_usage", "cRLSign", "-ca"])
+    s.tool(["certgen"] + dn + ["-CN", "ROOTCA", "-days", "3650", "-key", s.p("evilkey.pem"), "-pass", P, "-out", s.p("evilroot.pem"), "-key_usage", "keyCertSign", "-key_usage", "cRLSign", "-ca"])
+    s.tool(["reqgen"] + dn + ["-CN", "Sub CA", "-key", s.p("cakey.pem"), "-pass", P, "-out", s.p("careq.pem")])
+    s.tool(["reqsign", "-in", s.p("careq.pem"), "-days", "365", "-key_usage", "keyCertSign", "-path_len_constraint", "0", "-cacert", s.p("root.pem"), "-key", s.p("rootkey.pem"), "-pass", P, "-out", s.p("ca.pem"), "-ca"])
+    for nm, ku in (("sign", "digitalSignature"), ("enc", "keyEncipherment")):
+        s.tool(["reqgen"] + dn + ["-CN", "localhost", "-key", s.p(nm + "key.pem"), "-pass", P, "-out", s.p(nm + "req.pem")])
+        s.tool(["reqsign", "-in", s.p(nm + "req.pem"), "-days", "365", "-key_usage", ku, "-cacert", s.p("ca.pem"), "-key", s.p("cakey.pem"), "-pass", P, "-out", s.p(nm + "cert.pem")])
+    return all(os.path.exists(s.p(f)) for f in ("root.pem", "ca.pem", "signcert.pem", "enccert.pem"))
+
+
+def cms_session(exe, wd, sizes, salt):
+    s = Session(exe, wd); P = "P@ssw0rd%d" % salt
+    if not pki(s, P):
+        raise RuntimeError("the certificate tools did not produce the test PKI in %s" % wd)
+    for n in sizes:
+        m = msg(n, salt); s.write("m", m)
+        sid = s.produce("cmssign", ["-key", s.p("signkey.pem"), "-pass", P, "-cert", s.p("signcert.pem"), "-in", s.p("m"), "-out", s.p("s.pem")], "s.pem")
+        if sid:
+            pem = s.read("s.pem")
+            V = lambda what, x=None, **kw: (s.write("s2.pem", pem if x is None else x), s.open(sid, "cmsverify", ["-in", s.p("s2.pem"), "-out", s.p("o")], "%s:len%d" % (what, n), outname="o", original=m, **kw))
+            V("genuine")
+            # what the signature covers and the signature itself (the certificates travelling with the message are not validated by cmsverify: no anchor is given)
+            der = pem_der(pem); at = der.find(m[:16]) if n >= 16 else -1
+            for off in ([at + 3, at + n // 2, at + n - 1] if at > 0 else []) + [-3, -20, -50]:
+                V("flip@%d" % off, x=pem_flip(pem, off), untouched=False)
+        if n:
+            cid = s.produce("cmsencrypt", ["-rcptcert", s.p("enccert.pem"), "-in", s.p("m"), "-out", s.p("c.pem")], "c.pem")
+            if cid:
+                pem = s.read("c.pem")
+                D = lambda what, x=None, key="enckey.pem", cert="enccert.pem", **kw: (s.write("c2.pem", pem if x is None else x),
+                                                                                    s.open(cid, "cmsdecrypt", ["-key", s.p(key), "-pass", P, "-cert", s.p(cert), "-in", s.p("c2.pem"), "-out", s.p("d")], "%s:len%d" % (what, n), outname="d", original=m, **kw))
+                D("genuine"); D("otherkey", key="signkey.pem", cert="signcert.pem", rightkey=False)
+                for off in (60, 120, 180, 230):          # recipient identification and encrypted key (the content itself carries no integrity check: known finding of C16, not probed here)
+                    D("flip@%d" % off, x=pem_flip(pem, off), untouched=False)
+    return s
+
+
+def chain_session(exe, wd, salt):
+    s = Session(exe, wd); P = "P@ssw0rd%d" % salt
+    if not pki(s, P):
+        raise RuntimeError("the certificate tools did not produce the test PKI in %s" % wd)
+    chain = s.read("signcert.pem") + s.read("ca.pem")
+    s.nid += 1; s.evs.append({"e": "CliProduce", "id": s.nid, "tool": "reqsign", "admissible": 1, "rc": 0, "outlen": len(chain)})
+    cid = s.nid
+    V = lambda what, ch=None, ca="root.pem", **kw: (s.write("chain.pem", chain if ch is None else ch), s.open(cid, "certverify", ["-in", s.p("chain.pem"), "-cacert", s.p(ca)], what, **kw))
+    V("genuine"); V("otherroot-samename", ca="evilroot.pem", rightkey=False); V("no-intermediate", ch=s.read("signcert.pem"), untouched=False)
+    V("wrong-order", ch=s.read("ca.pem") + s.read("signcert.pem"), untouched=False)
+    for fr in (0.1, 0.4, 0.6, 0.9, 0.99):
+        V("leafflip@%.2f" % fr, ch=pem_flip(s.read("signcert.pem"), fr) + s.read("ca.pem"), untouched=False)
+        V("caflip@%.2f" % fr, ch=s.read("signcert.pem") + pem_flip(s.read("ca.pem"), fr), untouched=False)
+    V("enc-leaf-as-signer", ch=s.read("enccert.pem") + s.read("ca.pem"))          # a chain is a chain: certverify does not ask for a purpose
+    return s
+
+
+def sessions(c, prop, which, tag, sizes):
+    """run the named sessions, report sanitizer findings, return [(key, events)] for validation by Cli.tla"""
+    import concurrent.futures as cf, shutil
+    exe = vlib.build_cli("asan")
+    wd = os.path.join(vlib.BUILD, "cli_" + tag)
+    shutil.rmtree(wd, ignore_errors=True)
+    fns = {"sm2sign": lambda d, k: sm2_session(exe, d, sizes, k, "sign"), "sm2enc": lambda d, k: sm2_session(exe, d, sizes, k, "enc"), "sm9": lambda d, k: sm9_session(exe, d, sizes, k), "cms": lambda d, k: cms_session(exe, d, sizes, k), "chain": lambda d, k: chain_session(exe, d, k)}
+    jobs = [(w, k) for w in which for k in (1, 2)]
+    out = []
+    with cf.ThreadPoolExecutor(8) as ex:
+        for (w, k), s in zip(jobs, ex.map(lambda j: fns[j[0]](os.path.join(wd, "%s%d" % j), j[1]), jobs)):
+            key = "%s:cli:%s-session:%d" % (prop.lower(), w, k)
+            c.count(len(s.evs), key)
+            if s.san:
+                c.violation(key + ":crash", "a command line tool crashed or tripped a sanitizer: %s" % str(s.san)[:400], {"report": str(s.san)[:3000]})
+            out.append((key, s.evs))
+    shutil.rmtree(wd, ignore_errors=True)
+    return out
+
+
+def judge_sessions(c, runs, tag):
+    rej, states = vlib.validate("Cli", [evs for _, evs in runs], tag=tag + "clis", timeout=900)
+    c.cov["cli_session_events"] = c.cov.get("cli_session_events", 0) + sum(len(e) for _, e in runs)
+    c.cov["traces_validated_against_impl"] = c.cov.get("traces_validated_against_impl", 0) + len(runs)
+    for i, j, ev in rej:
+        key, evs = runs[i]
+        if ev.get("e") == "CliProduce":
+            what = "`gmssl %s` exited with status %s for %s input (output %d bytes)" % (ev.get("tool"), ev.get("rc"), "admissible" if ev.get("admissible") else "inadmissible", ev.get("outlen", -1))
+        else:
+            facts = [k for k in ("untouched", "rightkey", "rightid", "rightmsg") if not ev.get(k)]
+            what = "`gmssl %s` (%s) exited with status %s although %s%s" % (ev.get("tool"), ev.get("what"), ev.get("rc"), ("everything offered was genuine" if not facts else "not " + ", not ".join(facts)),
+                                                                          "" if ev.get("same") else "; the content given back differs from the original")
+        c.violation("%s:%s" % (key, ev.get("what", ev.get("tool"))), what, {"event": ev, "events_before": evs[max(0, j - 3):j]})
